@@ -83,16 +83,11 @@ func run(template string, optimize bool) (res runResult) {
 
 // panicSig: phase, input class, runtime error class.
 func panicSig(template string, r runResult) string {
+	// input class: escape handling is the only part of Compile that looks at
+	// the character after the current one
 	in := "no-backslash"
 	if strings.Contains(template, `\`) {
-		in = "backslash-inside-template"
-		n := 0
-		for i := len(template) - 1; i >= 0 && template[i] == '\\'; i-- {
-			n++
-		}
-		if n%2 == 1 {
-			in = "trailing-backslash"
-		}
+		in = "template-with-backslash"
 	}
 	cls := "other"
 	switch {
@@ -192,8 +187,10 @@ type tierParams struct {
 	litLen2      int
 	seps         []string
 	sepBits      []int
-	bigBound     int  // deviation bound for trees with two or more inner calls or three arguments and an inner call
-	fullDepth2   bool // depth-2 trees with 3 arguments and any number of inner calls
+	d1Bound3     int  // deviation bound for depth-1 trees with three arguments (-1: every combination)
+	b21, b22     int  // deviation bounds for depth-2 trees with 2 arguments and 1 / 2 inner calls
+	b31          int  // ... with 3 arguments and 1 inner call
+	fullDepth2   bool // depth-2 trees with 3 arguments and 2..3 inner calls
 	fullBound    int  // their deviation bound
 	mutIns       []string
 	mutBound     int // mutate every print with at most this many deviations (depth-1 trees)
@@ -211,13 +208,13 @@ func params(quick bool) tierParams {
 	rawNoBs := []string{"{", "}", `"`, " ", "f", "0", "\t"}
 	if quick {
 		return tierParams{litAlphabet: base, litLen: 5, litAlphabet2: wide, litLen2: 3,
-			seps: []string{" ", "  ", "\t"}, sepBits: []int{0, vkSepDouble, vkSepTab},
-			bigBound: 2, mutIns: []string{"{", "}", `"`, `\`, " ", "q"}, mutBound: 0,
+			seps: []string{" ", "  ", "\t", "\n"}, sepBits: []int{0, vkSepDouble, vkSepTab, vkSepNewline}, d1Bound3: 3,
+			b21: 2, b22: 2, b31: 1, mutIns: []string{"{", "}", `"`, `\`, " ", "q"}, mutBound: 0,
 			rawAlphabet: raw, rawLen: 7, rawAlphabet2: rawNoBs, rawLen2: 7}
 	}
 	return tierParams{litAlphabet: base, litLen: 6, litAlphabet2: wide, litLen2: 5,
 		seps: []string{" ", "  ", "\t", "\n"}, sepBits: []int{0, vkSepDouble, vkSepTab, vkSepNewline},
-		bigBound: 3, fullDepth2: true, fullBound: 2, mutIns: []string{"{", "}", `"`, `\`, " ", "q", "\t"}, mutBound: 1, mutDepth2: true,
+		d1Bound3: -1, b21: 4, b22: 3, b31: 2, fullDepth2: true, fullBound: 1, mutIns: []string{"{", "}", `"`, `\`, " ", "q", "\t"}, mutBound: 1, mutDepth2: true,
 		rawAlphabet: raw, rawLen: 9, rawAlphabet2: rawNoBs, rawLen2: 8}
 }
 
@@ -305,6 +302,7 @@ func worker(w *runner.W) {
 		}
 		w.Add("choice_points", ex.ChoicePoints)
 		w.Add("trees", 1)
+		w.Add(fmt.Sprintf("prints_depth%d_args%d_inner%d", t.depth(), len(t.args), t.innerCalls()), ex.Executions)
 		return true
 	}
 	if part == "all" || part == "trees" {
@@ -312,7 +310,11 @@ func worker(w *runner.W) {
 		// depth 1: f/g with 1..3 leaf arguments, every variant
 		for _, fn := range []string{"f", "g"} {
 			calls(fn, lv, 3, func(t *tree) {
-				if !stop && !treeCase(t, -1, true, tp.mutBound) {
+				b := -1
+				if len(t.args) == 3 {
+					b = tp.d1Bound3
+				}
+				if !stop && !treeCase(t, b, true, tp.mutBound) {
 					stop = true
 				}
 			})
@@ -327,9 +329,11 @@ func worker(w *runner.W) {
 			case len(t.args) == 1:
 				stop = !treeCase(t, -1, tp.mutDepth2, 0)
 			case len(t.args) == 2 && ic == 1:
-				stop = !treeCase(t, tp.bigBound+1, tp.mutDepth2, 0)
-			case len(t.args) == 2 || ic == 1:
-				stop = !treeCase(t, tp.bigBound, tp.mutDepth2 && len(t.args) == 2, 0)
+				stop = !treeCase(t, tp.b21, tp.mutDepth2, 0)
+			case len(t.args) == 2:
+				stop = !treeCase(t, tp.b22, tp.mutDepth2, 0)
+			case ic == 1:
+				stop = !treeCase(t, tp.b31, false, 0)
 			case tp.fullDepth2:
 				stop = !treeCase(t, tp.fullBound, false, 0)
 			}
@@ -403,12 +407,16 @@ func main() {
 		Level:      "exploration",
 		Rule: func(prop, tier string) string {
 			tp := params(tier != "thorough")
+			d1 := "all combinations"
+			if tp.d1Bound3 >= 0 {
+				d1 = fmt.Sprintf("at most %d non-default choices", tp.d1Bound3)
+			}
 			full := "not enumerated"
 			if tp.fullDepth2 {
 				full = fmt.Sprintf("at most %d deviations", tp.fullBound)
 			}
-			return fmt.Sprintf("(A) every string with 0..%d symbols over {%s} and 1..%d symbols over {%s}, rendered with minimal escapes (only \\ { }) and with every character escaped, alone and as `E{0}E{k}`, must evaluate to the string; (B) expression trees f(args)/g(args) with 1..3 arguments over leaves {a, \"b c\", \"\", {0}, {1}, {k}} and, below f, calls g(1..2 leaves); printed with every combination of argument separator {%s}, optional quoting of words, lookups and quote-free calls, leading/trailing blank inside the braces, and literal neighbours (`xTy {1}{0}`): all combinations for depth-1 trees and depth-2 trees with one argument, at most %d non-default choices for depth-2 trees with 2 arguments and one inner call, at most %d for 2 arguments/two inner calls and 3 arguments/one inner call, 3 arguments with more inner calls: %s; evaluated with recording functions in a private KeyBuilder (optimisation on and off) against the value of the tree; (C) every single-character deletion and every insertion of one of {%s} at every position of the plain print (depth-1 trees: prints with at most %d non-default choices) of those trees, judged by the reference reading; (D) every string with 0..%d symbols over {%s} and the strings with a tab among 1..%d symbols over {%s}, judged by the reference reading (value / must be a compile error / not settled); no panic anywhere. non-trivial = (A) non-empty string evaluated, (B) compiled and compared, (C,D) the reference reading settles the template (value or must-error) [D: and it contains a statement]",
-				tp.litLen, show(tp.litAlphabet), tp.litLen2, show(tp.litAlphabet2), show(tp.seps), tp.bigBound+1, tp.bigBound, full, show(tp.mutIns), tp.mutBound, tp.rawLen, show(tp.rawAlphabet), tp.rawLen2, show(tp.rawAlphabet2))
+			return fmt.Sprintf("(A) every string with 0..%d symbols over {%s} and 1..%d symbols over {%s}, rendered with minimal escapes (only \\ { }) and with every character escaped, alone and as `E{0}E{k}`, must evaluate to the string; (B) expression trees f(args)/g(args) with 1..3 arguments over leaves {a, \"b c\", \"\", {0}, {1}, {k}, p{1}} and, below f, calls g(1..2 leaves); printed with every combination of argument separator {%s}, optional quoting of words, lookups and quote-free calls, leading/trailing blank inside the braces, and literal neighbours (`xTy {1}{0}`): all combinations for depth-1 trees (three arguments: %s) and depth-2 trees with one argument, at most %d non-default choices for depth-2 trees with 2 arguments and one inner call, at most %d for 2 arguments/two inner calls, at most %d for 3 arguments/one inner call, 3 arguments with more inner calls: %s; evaluated with recording functions in a private KeyBuilder (optimisation on and off) against the value of the tree; (C) every single-character deletion and every insertion of one of {%s} at every position of the plain print of the depth-1 trees (prints with at most %d non-default choices) and, in the thorough tier, of the depth-2 trees with at most 2 arguments, judged by the reference reading; (D) every string with 0..%d symbols over {%s} and the strings with a tab among 1..%d symbols over {%s}, judged by the reference reading (value / must be a compile error / not settled); no panic anywhere. non-trivial = (A) non-empty string evaluated, (B) compiled and compared, (C,D) the reference reading settles the template (value or must-error) [D: and it contains a statement]",
+				tp.litLen, show(tp.litAlphabet), tp.litLen2, show(tp.litAlphabet2), show(tp.seps), d1, tp.b21, tp.b22, tp.b31, full, show(tp.mutIns), tp.mutBound, tp.rawLen, show(tp.rawAlphabet), tp.rawLen2, show(tp.rawAlphabet2))
 		},
 		Assumptions: func(string) []string {
 			return []string{
